@@ -91,7 +91,7 @@ def main():
     core = ["base", "affine", "ifelse", "deralias", "paramalias", "chain3+-:expr", "chain3--:state", "chain2-:input"]
     spec = []
     if a.tier == "quick":
-        for mid in core:
+        for mid in ["base", "affine", "deralias", "chain3+-:expr"]:  # one wave of 16 shards; the other family members run in thorough
             for o3 in (0, 1):
                 for o4 in (0, 1):
                     spec.append(("square", f"mi={ids.index(mid)},o3={o3},o4={o4}"))
@@ -149,7 +149,7 @@ def main():
     cov["samples"] = [{"function": v.func, "pin": v.pin, "model": ids[int(v.pin.split(',')[0].split('=')[1])], "verdict": v.kind, "secs": round(v.secs, 1)} for v in vs][:10]
     cov["exhaustive"] = all(v.kind == "confirmed" for v in vs)
     cov["functions_encoded"] = ["casadi.model.Model.simplify / _simplify_once, dae_residual_function, initial_residual_function (executed symbolically by CrossHair; option flags symbolic)"]
-    cov["bounds"] = ("quick: 8 models x all 2^6 settings of (eliminate_constant_assignments, replace_constant_values, replace_parameter_expressions, detect_aliases, "
+    cov["bounds"] = ("quick: 4 models (base, affine, deralias, chain3+-) x all 2^6 settings of (eliminate_constant_assignments, replace_constant_values, replace_parameter_expressions, detect_aliases, "
                      "eliminable_variable_expression, factor_and_simplify_equations); thorough: all 47 family models x 2^6, and 8 models x 2^9 adding "
                      "(replace_parameter_values, expand_mx, allow_derivative_aliases)")
     cov["bounds"] += ("; concrete supplementary stage: every model of the extended C14 families (alias links and cycles, 15 equation orientations, badly scaled affine systems) that is "
